@@ -189,8 +189,12 @@ func run(c tcase) string {
 		}
 		k = 3
 	}
-	if toks[k].Key != "msg" || toks[k].Val != c.msg {
-		return fmt.Sprintf("token %q=%q, want msg=%q", toks[k].Key, toks[k].Val, c.msg) + show()
+	wantMsg := c.msg
+	if !c.direct {
+		wantMsg = lm.FormMessage(c.form, c.msg)
+	}
+	if toks[k].Key != "msg" || toks[k].Val != wantMsg {
+		return fmt.Sprintf("token %q=%q, want msg=%q", toks[k].Key, toks[k].Val, wantMsg) + show()
 	}
 	if m := lm.MatchTokens(toks, lm.ExpectTextBody(c.chain, c.attrs), k+1); m != "" {
 		return m + show()
